@@ -171,7 +171,7 @@ def tolerances(c, s, f_ineq=1e3, f_q=1e3):
     return float(tolq), tolub, toleq
 
 
-def request(c, s, rtol=1e-9, f_ineq=1e3, f_q=1e3):
+def request(c, s, rtol=1e-12, f_ineq=1e3, f_q=1e3):
     tolq, tolub, toleq = tolerances(c, s, f_ineq, f_q)
     n = c["n"]
     mub, meq = (len(c["bub"]), len(c["beq"])) if c["kind"] in ("constrained_tangential", "normal") else (0, 0)
